@@ -225,30 +225,29 @@ def main():
     out = {"import": {"ok": True, "error": ""}, "modules": {}, "failures": [], "stats": {}}
     orc = Oracle(q["reserved"])
     pkg = q["package"]
-    # ---- the package as a user imports it
+    # ---- the package as a user imports it (the types package of the API and of each proto sub-package)
+    tpkgs = sorted({f["types_package"] for f in q["files"]} | {pkg + ".types"})
     try:
-        importlib.import_module(pkg + ".types")
+        for tp in tpkgs:
+            importlib.import_module(tp)
     except BaseException as e:  # noqa
         out["import"] = {"ok": False, "error": f"{type(e).__name__}: {e}"[:600], "trace": traceback.format_exc()[-900:]}
         # isolate the failing module(s): stub the package objects so that each types module can be imported on its own
-        parts = pkg.split(".")
-        for i in range(1, len(parts) + 1):
-            name = ".".join(parts[:i])
-            if name not in sys.modules:
-                try:
-                    if i < len(parts):
+        for tp in tpkgs:
+            parts = tp.split(".")
+            for i in range(1, len(parts) + 1):
+                name = ".".join(parts[:i])
+                if name in sys.modules:
+                    continue
+                if i < len(pkg.split(".")):
+                    try:
                         importlib.import_module(name)
                         continue
-                except BaseException:  # noqa
-                    pass
+                    except BaseException:  # noqa
+                        pass
                 m = types.ModuleType(name)
                 m.__path__ = [q["root"] + "/" + "/".join(parts[:i])]
                 sys.modules[name] = m
-        tname = pkg + ".types"
-        if tname not in sys.modules:
-            m = types.ModuleType(tname)
-            m.__path__ = [q["root"] + "/" + "/".join(parts) + "/types"]
-            sys.modules[tname] = m
     fds = {fp.name: fp for fp in req.proto_file}
     for f in q["files"]:
         rec = {"ok": True, "error": "", "enums": [], "msgs": []}
